@@ -212,6 +212,11 @@ def rule_OP3(ctx, rep):
     ww, wo = width(tb, wt[0].args[0], wt[0], pmt), norm(wt[0].args[1])
     sl = rd[0].args[0]
     if isinstance(sl, ast.Name):
+        # a named block: chunk = data[i:i+r]
+        sl_ = routes.xp(fb, sl, rd[0], pmf)
+        if isinstance(sl_, ast.Subscript):
+            sl = sl_
+    if isinstance(sl, ast.Name):
         # the block is an element enumerated from a generator of slices: (data[i:i+r] for i in range(0, len(data), r))
         for b_ in routes._context(fb, rd[0], pmf)[0]:
             if b_.kind == 'iter' and b_.elem == sl.id and b_.src is not None:
@@ -288,8 +293,12 @@ def rule_OP3(ctx, rep):
     views = set()
     for r in iter_nodes(pi.node):
         if isinstance(r, ast.Return) and r.value is not None:
-            for cx, v in sem.guarded_values(pi, r.value, r, pmi, ctx=sem._ctx_of(pi, r, pmi)):
-                views.add((tuple(sorted(x for x in cx if 'is_signed' in x[0])), norm(v)))
+            rv, suffix = r.value, ''
+            if isinstance(rv, ast.Call) and isinstance(rv.func, ast.Name) and not rv.args and not rv.keywords:
+                # the bound method is chosen first and called afterwards: extract = self.signed_ if .. else self.unsigned_; return extract()
+                rv, suffix = rv.func, '()'
+            for cx, v in sem.guarded_values(pi, rv, r, pmi, ctx=sem._ctx_of(pi, r, pmi)):
+                views.add((tuple(sorted(x for x in cx if 'is_signed' in x[0])), norm(v) + suffix))
     if views == {((('self.is_signed', True),), 'self.signed_()'), ((('self.is_signed', False),), 'self.unsigned_()')}:
         rep.ok('OP3', pi, 'self.is_signed', 'signed view for signed fields, unsigned view otherwise', pi.node)
     else:
@@ -321,6 +330,41 @@ def rule_OP3(ctx, rep):
 
 
 # ---------------------------------------------------------------------------------- OP4
+def _only_used_by_overridden(model, gen, binc, bm, name, seen=()):
+    """Every mention of attribute `name` in module gfpx lies in a Polynomial method that BinaryPolynomial overrides (or that is itself
+    only used by such methods), and BinaryPolynomial never reaches up to its base class (no super(), no Polynomial.<m>)."""
+    if name in seen:
+        return True
+    for x in ast.walk(binc):
+        if isinstance(x, ast.Call) and isinstance(x.func, ast.Name) and x.func.id == 'super':
+            return False
+        if isinstance(x, ast.Attribute) and isinstance(x.value, ast.Name) and x.value.id == 'Polynomial':
+            return False
+    tree = model.trees['gfpx'] if hasattr(model, 'trees') else None
+    if tree is None:
+        return False
+    holders, found = set(), False
+    for top in tree.body:
+        if isinstance(top, ast.ClassDef) and top.name == gen.name:
+            for m in top.body:
+                if any(isinstance(x, ast.Attribute) and x.attr == name for x in ast.walk(m)):
+                    if not isinstance(m, (ast.FunctionDef, ast.AsyncFunctionDef)):
+                        return False
+                    holders.add(m.name)
+                    found = True
+        elif any(isinstance(x, ast.Attribute) and x.attr == name for x in ast.walk(top)):
+            return False
+    if not found:
+        # no mention is left: a small helper that the canonicalisation inlined at every call site is judged with its callers
+        return f'{gen.name}.{name}' in model.helpers.get('gfpx', ())
+    for holder in holders:
+        if holder == name or holder in bm:
+            continue
+        if not _only_used_by_overridden(model, gen, binc, bm, holder, seen + (name,)):
+            return False
+    return True
+
+
 def rule_OP4(ctx, rep):
     """representation overrides: every Polynomial primitive that touches the list representation of its parameters
     is overridden (or aliased) in BinaryPolynomial, whose representation is an int bitmask."""
@@ -355,6 +399,8 @@ def rule_OP4(ctx, rep):
             rep.ok('OP4', fnrec, m.name, 'representation independent (expressed through other primitives)', m)
         elif m.name in bm:
             rep.ok('OP4', fnrec, m.name, 'touches the list representation; overridden in BinaryPolynomial', m)
+        elif _only_used_by_overridden(model, gen, binc, bm, m.name):
+            rep.ok('OP4', fnrec, m.name, 'touches the list representation; only used by primitives that BinaryPolynomial overrides (never reached for bitmasks)', m)
         else:
             rep.bad('OP4', fnrec, m.name, f'{m.name} manipulates the coefficient-list representation but BinaryPolynomial (int bitmask representation) does not override it: '
                     'GF(2)[x] polynomials would be processed as lists', m)
